@@ -195,7 +195,7 @@ impl<K> AccessTime for DeqNode<KeyDate<K>> {
         None
     }
 //@@ END
-//@@ FN file=src/unsync.rs owner=AccessTime for DeqNode<KeyDate<K>> name=set_last_accessed tags=C08
+//@@ FN file=src/unsync.rs owner=AccessTime for DeqNode<KeyDate<K>> name=set_last_accessed tags=C08 never_called=1
     fn set_last_accessed(&mut self, _timestamp: Instant)
     {
         unreachable!();
@@ -239,7 +239,7 @@ impl<K> AccessTime for DeqNode<KeyHashDate<K>> {
         None
     }
 //@@ END
-//@@ FN file=src/unsync.rs owner=AccessTime for DeqNode<KeyHashDate<K>> name=set_last_modified tags=C08
+//@@ FN file=src/unsync.rs owner=AccessTime for DeqNode<KeyHashDate<K>> name=set_last_modified tags=C08 never_called=1
     fn set_last_modified(&mut self, _timestamp: Instant)
     {
         unreachable!();
